@@ -58,12 +58,21 @@ def gen_case(rnd, tier: str, i: Any) -> Dict[str, Any]:
 
 def fixed_cases(tier: str):
     from hv import samples
-    return [{"sample_dir": d, "cfg": {"mode": m, "mp": False, "inc_last": False, "no_round": False, "mem_prof": False}}
-            for d in samples.dirs(tier) for m in ("load",)]
+    out = [{"sample_dir": d, "cfg": {"mode": m, "mp": False, "inc_last": False, "no_round": False, "mem_prof": False}}
+           for d in samples.dirs(tier) for m in ("load",)]
+    if tier == "thorough":
+        # the repository's own loading tests with the parse / align / correlation contracts attached
+        out += [{"kind": "repo_tests", "file": f} for f in ("test_trace_parse.py", "test_trace_analysis.py", "test_correlation.py", "test_custom_trace_parser.py", "test_trace_file.py")]
+    return out
 
 
 def run_case(case: Dict[str, Any], ctx: Any) -> core.CaseResult:
     res = core.CaseResult()
+    if case.get("kind") == "repo_tests":
+        from hv.mon import repotests
+        res.key = "repo_tests:" + case["file"]
+        repotests.run(case["file"], res, ctx)
+        return res
     cfg = case["cfg"]
     if "sample_dir" in case:
         from hv import samples
